@@ -98,5 +98,34 @@ def j9_encode(plain, salt_char, rng=None):
     return out
 
 
+def j9_encode_noncanonical(plain, salt_char, rng):
+    """A well-formed $9$ string for plain that a device would never print: per character a RANDOM decomposition
+    into gaps (each gap in -1..63, i.e. also the same alphabet character twice in a row), decoding to the same value."""
+    n = _EXTRA[salt_char]
+    out = "$9$" + salt_char + "".join(rng.choice(_ALPHA) for _ in range(n))
+    prev = salt_char
+    for pos, ch in enumerate(plain):
+        enc = _ENC[pos % len(_ENC)]
+        v = ord(ch)
+        for _ in range(400):
+            gaps = [0] + [(-1 if rng.random() < 0.2 else rng.randint(0, 63)) for _ in enc[1:]]
+            g0 = (v - sum(g * w for g, w in zip(gaps[1:], enc[1:]))) % 256
+            if g0 > 63:
+                g0 -= 256
+            if -1 <= g0 <= 63:
+                gaps[0] = g0
+                break
+        else:
+            gaps = []
+            vv = v
+            for w in reversed(enc):
+                gaps.insert(0, vv // w)
+                vv %= w
+        for g in gaps:
+            prev = _ALPHA[(_NUM[prev] + g + 1) % len(_ALPHA)]
+            out += prev
+    return out
+
+
 def j9_wellformed(s):
     return isinstance(s, str) and re.fullmatch(r"\$9\$[%s]{4,}" % re.escape(_ALPHA), s) is not None
